@@ -449,3 +449,9 @@ fn c10_read_n_pool_completion() {
 
 pub(crate) const IOSQE_BUFFER_SELECT: u8 = 1 << 5;
 pub(crate) const IORING_CQE_F_BUFFER: u32 = 1;
+
+/// Arguments (descriptor, kind) a `Close` future will submit (private state).
+pub(crate) fn close_args(c: &mut super::Close) -> (i32, crate::fd::Kind) {
+    let (_r, a) = ops::resources_args(&mut c.state);
+    *a
+}
